@@ -71,6 +71,12 @@ type OptSpec struct {
 	FField string `json:"ffield,omitempty"`
 }
 
+// ErrorExpected: option values every driver lookup has to reject (the result
+// is not judged, the call must still close its channel and leave no trace).
+func (o OptSpec) ErrorExpected() bool {
+	return (o.Latest && o.FOp != "") || o.FField == "subject"
+}
+
 func (o OptSpec) Build() *storage.LookupOptions {
 	lo := &storage.LookupOptions{MaxElements: o.Max, Offset: o.Off, LatestAnchor: o.Latest}
 	if o.Lo != nil {
@@ -105,6 +111,8 @@ func filterField(s string) filter.Field {
 		return filter.PredicateField
 	case "object":
 		return filter.ObjectField
+	case "subject":
+		return filter.SubjectField // not accepted by any filter function: the lookup must fail cleanly
 	}
 	panic("bad filter field " + s)
 }
@@ -148,7 +156,7 @@ func closedByCallee[T any](ch chan T) (was bool) {
 	return false
 }
 
-func runLookup[T any](capacity int, key func(T) string, isNil func(T) bool, call func(ch chan T) error) *lookupResult {
+func runLookup[T any](capacity int, onReturn func(), key func(T) string, isNil func(T) bool, call func(ch chan T) error) *lookupResult {
 	res := &lookupResult{}
 	done := make(chan struct{})
 	ch := make(chan T, capacity)
@@ -168,6 +176,9 @@ func runLookup[T any](capacity int, key func(T) string, isNil func(T) bool, call
 		go drain()
 	}
 	res.Err = call(ch)
+	if onReturn != nil {
+		onReturn() // the caller holds the baton here: the callee has just returned
+	}
 	res.Closed = closedByCallee(ch)
 	<-done
 	return res
@@ -176,18 +187,23 @@ func runLookup[T any](capacity int, key func(T) string, isNil func(T) bool, call
 // doLookup calls a read method with a channel of the given capacity and drains
 // it concurrently. Under simulation the drainer is a scheduled task.
 func doLookup(ctx context.Context, g storage.Graph, lc LookupCall, lo *storage.LookupOptions, capacity int) *lookupResult {
+	return doLookupR(ctx, g, lc, lo, capacity, nil)
+}
+
+// doLookupR additionally calls onReturn at the moment the callee returns.
+func doLookupR(ctx context.Context, g storage.Graph, lc LookupCall, lo *storage.LookupOptions, capacity int, onReturn func()) *lookupResult {
 	s, p, o := V.Nodes[lc.S], V.Preds[lc.P], V.Objs[lc.O]
 	switch lc.M {
 	case MObjects:
-		return runLookup(capacity, objKey, func(x *triple.Object) bool { return x == nil }, func(ch chan *triple.Object) error {
+		return runLookup(capacity, onReturn, objKey, func(x *triple.Object) bool { return x == nil }, func(ch chan *triple.Object) error {
 			return g.Objects(ctx, s, p, lo, ch)
 		})
 	case MSubjects:
-		return runLookup(capacity, nodeKey, func(x *node.Node) bool { return x == nil }, func(ch chan *node.Node) error {
+		return runLookup(capacity, onReturn, nodeKey, func(x *node.Node) bool { return x == nil }, func(ch chan *node.Node) error {
 			return g.Subjects(ctx, p, o, lo, ch)
 		})
 	case MPredsS, MPredsO, MPredsSO:
-		return runLookup(capacity, predKey, func(x *predicate.Predicate) bool { return x == nil }, func(ch chan *predicate.Predicate) error {
+		return runLookup(capacity, onReturn, predKey, func(x *predicate.Predicate) bool { return x == nil }, func(ch chan *predicate.Predicate) error {
 			switch lc.M {
 			case MPredsS:
 				return g.PredicatesForSubject(ctx, s, lo, ch)
@@ -197,7 +213,7 @@ func doLookup(ctx context.Context, g storage.Graph, lc LookupCall, lo *storage.L
 			return g.PredicatesForSubjectAndObject(ctx, s, o, lo, ch)
 		})
 	}
-	return runLookup(capacity, tripleKey, func(x *triple.Triple) bool { return x == nil }, func(ch chan *triple.Triple) error {
+	return runLookup(capacity, onReturn, tripleKey, func(x *triple.Triple) bool { return x == nil }, func(ch chan *triple.Triple) error {
 		switch lc.M {
 		case MTriplesS:
 			return g.TriplesForSubject(ctx, s, lo, ch)
